@@ -55,8 +55,27 @@ fn write_subword_fn<W: Write>(
             break
         fi
 
-        local subword=${{word:$char_index}}
+        local subword=${{word:$char_index}}"#
+    )?;
 
+    if needs_star_code {
+        // Nothing can follow an undefined nonterminal inside a word (UnboundedMatchable), so a state
+        // that expects one accepts whatever is left.  Decide that before the literals are tried:
+        // the loop below is greedy and never comes back to this alternative.
+        write!(
+            buffer,
+            r#"
+        if [[ $mode = matches && -v "star_transitions[$subword_state]" ]]; then
+            matched=1
+            break
+        fi
+"#
+        )?;
+    }
+
+    writeln!(
+        buffer,
+        r#"
         if [[ -v "literal_transitions[$subword_state]" ]]; then
             local -A state_transitions=${{literal_transitions[$subword_state]}}
 
